@@ -17,6 +17,8 @@ import LenaModel.Model.C03
   B = {"k":"src","n":k} | {"k":"fc","stop":n|null,"late":bool,"items":bool} | {"k":"fr","stop":n|null,"late":bool}
     | {"k":"sq","v":"map"|"mapEnd"|"even"|"sumBlock"|"dup"|"running"|"lam"} | {"k":"sum"}
     | {"k":"nest","inner":[B..]}   (op "run" only: a common-type Split as a branch)
+    in op "run" a B may carry "pre":true / "post":true: the element sits in a tuple after `lambda x: x+10` /
+    before `lambda v: ("post", v)`
   O = {"t":"source"|"fcseq"|"frseq"|"seq"} | {"t":"el","caps":"fcqrkib"-subset} | {"t":"tuple","els":["caps"..]}
       caps letters: f fill, c compute, q request, r run, k callable, i fill_into, b _can_break_flow
   V = int | string | [V..];  E = ["call"] | ["fill",x,stopped] | ["compute"] | ["request"] | ["run",[x..]] -/
@@ -64,7 +66,8 @@ def brs? (j : Json) : Option (List BSpec) := (arr? (getD j "brs")).bind (fun a =
 def ospec? (j : Json) : Option OSpec :=
   match str? (getD j "k") with
   | some "nest" => ((arr? (getD j "inner")).bind (fun a => a.toList.mapM bspec?)).map OSpec.nest
-  | _ => (bspec? j).map OSpec.plain
+  | _ => (bspec? j).map (fun b => OSpec.plain
+      { base := b, pre := (bool? (getD j "pre")).getD false, post := (bool? (getD j "post")).getD false })
 
 def obrs? (j : Json) : Option (List OSpec) := (arr? (getD j "brs")).bind (fun a => a.toList.mapM ospec?)
 
@@ -112,7 +115,9 @@ def handle (j : Json) : Json :=
         bool? (getD j "copy_buf") with
     | some osp, some flow, some bss, some cb =>
       -- without a nested Split the branches are the harness elements themselves (`mkHarnessBranches`)
-      match osp.mapM (fun o => match o with | .plain sp => some sp | .nest _ => none) with
+      match osp.mapM (fun o => match o with
+          | .plain h => if h.pre || h.post then none else some h.base
+          | .nest _ => none) with
       | some sp => Json.mkObj [("runs", ofList (runOne (mkHarnessBranches 0 sp) cb flow) bss)]
       | none => Json.mkObj [("runs", ofList (runOne (mkOuterBranches 0 osp) cb flow) bss)]
     | _, _, _, _ => err "bad run args"
